@@ -308,4 +308,83 @@ example :
     ((outlineProgram.run 50).2.world.framers 1).status = .stopped := by
   decide +kernel
 
+/-! ## every visit: the entered frames are an outline of the program, and the lower frame bids last -/
+
+/-- **The bid of the lower frame is issued after the upper frame's — on every visit.**
+(1, 2) In every state any run of any program reaches (after any number of passes, stops and restarts, bids,
+fiats at any depth, transitions from one outline to another and back) and in the state `run` returns, no
+framer's program has changed and the entered frames of every framer — scheduled or slave — are none or exactly
+the outline of one frame of its program: ancestors top first, the frame, its primary unders; never a list left
+over (or reordered) from an earlier visit. (3) START enters, and every RUN recurs, those frames in list order,
+each frame's actions in the world that all the frames above it left (`l1 ++ l2`). (4) So when the enter (recur)
+actions of the lowest frame `g` of the entered list end with a bid `c` for `t`, the desire of `t` after the
+whole enter (recur) is `c`, whatever the frames above `g` bid for `t` — with `C04_control_is_last_bid`: that is
+the control the scheduler sends. -/
+theorem C04_lower_frame_bids_last_every_visit (p : Program τ) (h0 : Outl p.world) (fuel : Nat) :
+    let F := fun k => (p.world.framers k).frames
+    let s0 := start FramerEnv p.period p.stamp p.houses p.world
+    (∀ n s, stateAt FramerEnv n s0 = some s → OutlP F s.world) ∧
+    OutlP F (p.run fuel).2.world ∧
+    (∀ (H : FiatH τ) (i : Nat) (l1 l2 : List Nat) (w : World τ),
+      enterFrames H i (l1 ++ l2) w = enterFrames H i l2 (enterFrames H i l1 w) ∧
+      recurFrames H i (l1 ++ l2) w = recurFrames H i l2 (recurFrames H i l1 w)) ∧
+    (∀ (d : Nat) (chain : List Nat) (i : Nat) (l : List Nat) (g : Nat) (w : World τ)
+       (pre : List (Act τ)) (t : Nat) (c : Control) (per : Option τ),
+      ((frameOf (w.framers i) g).enacts = pre ++ [.bid [t] c per] →
+        des (enterFrames (fiatD d chain) i (l ++ [g]) w) t = c) ∧
+      ((frameOf (w.framers i) g).reacts = pre ++ [.bid [t] c per] →
+        des (recurFrames (fiatD d chain) i (l ++ [g]) w) t = c)) := by
+  intro F s0
+  have hstart : OutlP F s0.world := by
+    apply start_inv (I := fun s : St τ (World τ) => OutlP F s.world)
+    · intro s i hi
+      exact (Ok.trans (ok_writeDesire i _ s.world) (ok_setStatus i .stopped _)).outlP hi
+    · exact ⟨fun _ => rfl, h0⟩
+  refine ⟨fun n s hs => stateAt_inv (outlP_step F) hstart n s hs, run_inv (outlP_step F) fuel _ hstart,
+    fun H i l1 l2 w => ⟨enterFrames_append H i l1 l2 w, recurFrames_append H i l1 l2 w⟩, ?_⟩
+  intro d chain i l g w pre t c per
+  have hH := hok_fiatD (τ := τ) d chain
+  constructor
+  · intro he
+    rw [enterFrames_append]
+    simp only [enterFrames]
+    have hfr : frameOf ((enterFrames (fiatD d chain) i l w).framers i) g = frameOf (w.framers i) g := by
+      unfold frameOf
+      rw [(ok_enterFrames hH i l w).frames i]
+    rw [hfr, he]
+    exact runActs_last_bid _ _ _ _ _ _ _
+  · intro he
+    rw [recurFrames_append]
+    simp only [recurFrames]
+    have hfr : frameOf ((recurFrames (fiatD d chain) i l w).framers i) g = frameOf (w.framers i) g := by
+      unfold frameOf
+      rw [(ok_recurFrames hH i l w).frames i]
+    rw [hfr, he]
+    exact runActs_last_bid _ _ _ _ _ _ _
+
+/-- non-vacuity: framer 0 — frame 0 bids `stop 1` on entry, its under frame 1 bids `start 1` — goes from the outline
+0,1 to the top-level frame 2 and back; on both visits the bids are issued upper first, lower last, so framer 1
+is sent START in pass 0 and again in pass 2 (it was bid to stop and then to start, the last bid wins); and in a\nreached state the entered frames are the outline 0,1 again -/
+def roundProgram : Program Rat :=
+  { period := 1/8, stamp := 0, houses := [{ fronts := [], mids := [0, 1], backs := [] }],
+    framers := [
+      { sched := .active, period := 0, frames := [
+          { enacts := [.bid [1] .stop none] },
+          { over := some 0, enacts := [.bid [1] .start none], preacts := [⟨[.recurredGe 1], 2⟩] },
+          { preacts := [⟨[.recurredGe 1], 1⟩] }] },
+      { sched := .inactive, period := 0, frames := [{}] }] }
+
+example :
+    roundProgram.wellFormed = true ∧ Outl roundProgram.world ∧
+    ((roundProgram.run 4).2.world.trace.filterMap fun o =>
+      match o with | .bid 0 1 c _ => some c | .mark 0 f true => (if f = 2 then some .other else none) | _ => none) =
+      [.stop, .start, .other, .stop, .start, .other] ∧
+    (match stateAt FramerEnv 3 (start FramerEnv roundProgram.period roundProgram.stamp roundProgram.houses roundProgram.world) with
+     | some s => (s.world.framers 0).actives | none => []) = [0, 1] ∧
+    ((roundProgram.run 4).2.events.filter (·.id = 1)).map (fun e => (e.tick, e.control)) =
+      [(0, .start), (1, .run), (2, .start), (3, .run)] := by
+  refine ⟨by decide +kernel, fun k => Or.inl ?_, by decide +kernel, by decide +kernel, by decide +kernel⟩
+  simp only [roundProgram, Program.world]
+  rcases k with _ | _ | k <;> simp
+
 end Ioflo.Bids
